@@ -149,9 +149,20 @@ func (m *Model) SetStyle(st Style) { m.Def = st }
 // full repaint (all=true: Sync, resize redraw).  A default-styled cell that
 // is not repainted keeps the default style it was painted with.
 func (m *Model) Painted(all bool) {
+	hidden := make([]bool, len(m.Cells))
+	for y := 0; y < m.H; y++ {
+		for x, g := range m.Row(y) {
+			hidden[y*m.W+x] = g.Hidden
+		}
+	}
 	for i := range m.Cells {
 		c := &m.Cells[i]
 		if c.Locked {
+			continue
+		}
+		if hidden[i] {
+			// covered by the wide rune to its left: not painted, so it
+			// keeps whatever it was painted with before
 			continue
 		}
 		r := c.R
